@@ -512,7 +512,11 @@ fn run_prog(p: &Prog) -> Out {
         outer_leak = Some(extra);
         std::thread::sleep(Duration::from_millis(1));
     }
-    if outer_leak.is_some() && pool_jobs_pending() {
+    // the driver's own descriptors (epoll, eventfd, timerfd / the ring) are also held by a pool
+    // thread that has run a job of this runtime until it lets go of its completion handle, a
+    // moment after the job ended: with pool jobs in the program that is lag, not a verdict
+    let only_driver_fds = outer_leak.as_ref().is_some_and(|l| l.iter().all(|x| x.contains("anon_inode:")));
+    if outer_leak.is_some() && (pool_jobs_pending() || (only_driver_fds && crate::drv::soup::had_pool_jobs())) {
         POOL_LAG.with(|l| l.set(true));
     } else if let Some(l) = outer_leak {
         vio(&mut viol, "descriptor-leaked-after-runtime-drop", &ctx, format!("still open after the runtime was dropped: {l:?}"));
